@@ -16,7 +16,7 @@ Err(DD, OO) == EmptySelection(DD, OO) \/ ~SomeObs(DD)
 NoCtx == [T |-> <<>>, L |-> <<>>, S |-> <<>>, G |-> {}, n |-> 0, adj |-> <<>>, pos |-> <<>>]
 GoodReqs(X) == {r \in Requests(X.n) : ReqOk(X, r)}
 
-EnsThr == <<14150, 24150>>
+EnsThr == <<19150, 29150>>
 EnsProbD(vals, t) == LET ok == SelectSeq(vals, LAMBDA v : ~IsNaN(v)) IN
                      IF ok = <<>> THEN NaN ELSE Frac(Cardinality({k \in DOMAIN ok : Le(ok[k], t)}), Len(ok))
 Emit(X) ==
